@@ -195,6 +195,44 @@ def handle (op : String) (j : Json) : Except String Json := do
     let failed := failed ++ (if impl.isNull then [] else
       if impl == model then [] else ["history≠specified"])
     pure (Json.mkObj [("model", model), ("failed", clauses failed)])
+  | "tb.hist2" =>
+    -- several block objects handed to one another; impl: [{"objs":[{"lines":..,"str":..}..],"extra":..|null}]
+    let mk (x : Json) : Except String TObj := do
+      let c ← content (← field x "content")
+      let h ← contentD x "header" noneC
+      pure (TObj.new (boolFieldD x "comment" false) c h)
+    let objs ← (← arrField j "objects").mapM mk
+    let hop2 (x : Json) : Except String HOp2 := do
+      let k ← (← field x "k").getStr?
+      let o ← natField x "o"
+      match k with
+      | "append_ref" | "iadd_ref" => pure (.appendRef o (← natField x "j"))
+      | "add_ref" => pure (.addRef o (← natField x "j"))
+      | "new_from" => pure (.newFrom o (← natField x "j") (boolFieldD x "comment" false))
+      | "append_lines_of" => pure (.appendLinesOf o (← natField x "j"))
+      | _ => pure (.on o (← hop x))
+    let ops ← (← arrField j "steps").mapM hop2
+    let obs := run2 objs ops
+    let model := Json.arr (obs.map fun (os, extra) => Json.mkObj [
+      ("objs", Json.arr (os.map fun (ls, s) => Json.mkObj [("lines", SL ls), ("str", S s)]).toArray),
+      ("extra", match extra with | none => Json.null | some l => SL l)]).toArray
+    -- the frame clause on the IMPLEMENTATION's observations: a step changes at most the object it is applied to
+    let failed : List String := if impl.isNull then [] else
+      match impl.getArr? with
+      | .ok a =>
+        let snaps : List (List Json) := a.toList.map fun x => (arrField x "objs").toOption.getD []
+        let init : List Json := objs.map fun o => Json.mkObj [("lines", SL o.tb.lines), ("str", S o.str)]
+        let target : HOp2 → Option Nat
+          | .on o (.append _) | .on o (.trim _) | .on o (.indent _) | .on o (.setIndentor _) | .on o (.setLines _) => some o
+          | .appendRef o _ | .newFrom o _ _ | .appendLinesOf o _ => some o
+          | _ => none
+        (ops.zip ((init :: snaps).zip snaps)).flatMap fun (op, before, after) =>
+          (List.range before.length).flatMap fun i =>
+            if target op = some i || (before.getD i Json.null) == (after.getD i Json.null) then []
+            else ["a-step-on-one-block-changed-another-block"]
+      | _ => ["impl-error"]
+    let failed := failed ++ (if impl.isNull || impl == model then [] else ["history≠specified"])
+    pure (Json.mkObj [("model", model), ("failed", clauses failed)])
   | "py.splitlines" =>
     let s ← strField j "s"
     pure (Json.mkObj [("model", SL (splitlines s)), ("failed", clauses [])])
